@@ -16,6 +16,9 @@ import traceback
 
 VERIF = os.path.dirname(os.path.dirname(os.path.abspath(__file__)))
 sys.path.insert(0, VERIF)
+if os.environ.get("PVC_REPO"):
+    # self-test only: verify a scratch copy of the repository instead of /repo
+    sys.path.insert(0, os.environ["PVC_REPO"])
 
 from pvc import engine  # noqa: E402
 from pvc.engine import Obligation, run_obligation  # noqa: E402
